@@ -2088,7 +2088,9 @@ class Measurement:
             return NotImplemented
 
         measurand = self.measurand * other.measurand
-        uncertainty = self._join_uncertainties(measurand, other)
+        uncertainty = self._join_uncertainties(
+            other.measurand.magnitude, self.measurand.magnitude, other
+        )
         return Measurement(measurand, uncertainty)
 
     __rmul__ = __mul__
@@ -2101,25 +2103,22 @@ class Measurement:
             return NotImplemented
 
         measurand = self.measurand / other.measurand
-        uncertainty = self._join_uncertainties(measurand, other)
+        uncertainty = self._join_uncertainties(
+            _div(1, other.measurand.magnitude),
+            _div(measurand.magnitude, other.measurand.magnitude),
+            other,
+        )
         return Measurement(measurand, uncertainty)
 
-    def _join_uncertainties(self, measurand: Quantity, other: "Measurement") -> float:
+    def _join_uncertainties(
+        self, d_self: Numeric, d_other: Numeric, other: "Measurement"
+    ) -> float:
+        """Combines the uncertainties of two independent measurements, given the
+        (absolute) partial derivatives of the result with respect to each"""
         return math.sqrt(
-            _mul(
-                _pow(measurand.magnitude, 2),
-                (
-                    _add(
-                        _div(
-                            _pow(self.uncertainty.magnitude, 2),
-                            _pow(self.measurand.magnitude, 2),
-                        ),
-                        _div(
-                            _pow(other.uncertainty.magnitude, 2),
-                            _pow(other.measurand.magnitude, 2),
-                        ),
-                    )
-                ),
+            _add(
+                _pow(_mul(d_self, self.uncertainty.magnitude), 2),
+                _pow(_mul(d_other, other.uncertainty.magnitude), 2),
             )
         )
 
